@@ -700,6 +700,10 @@ class _Exec(object):
             if s.value is None:
                 return [Path(st.conds, st.events, st.env, ('return', 'None', s, ast.Constant(None)))]
             evs = self.record_calls(s.value, st)
+            if isinstance(s.value, ast.Call) and self.resolver is not None:
+                vf = self.value_facts(s.value, st)
+                if vf is not None:
+                    return [Path(st.conds + conds, st.events + tuple(evs), st.env, ('return', ctext(rv), s, rv)) for conds, rv in vf]
             # a conditional expression in a return splits the path
             if isinstance(s.value, ast.IfExp):
                 out = []
